@@ -63,5 +63,13 @@ fn c19_pattern_source_text_and_location() {
     let line2 = line!() - 1;
     let d2 = umk::verif::matcher_debug::<ML::f>(m2).unwrap();
     assert!(d2.2 == line2 && d2.0.as_bytes()[0] == b'(');
+    // an invocation whose patterns are wrapped over several lines is located at the line of `matching!` itself
+    let line3 = line!() + 1;
+    let m3: &dyn Fn(&mut umk::private::Matching<ML::f>) = matching!(
+        1 | 2,
+        _
+    );
+    let d3 = umk::verif::matcher_debug::<ML::f>(m3).unwrap();
+    assert!(d3.2 == line3, "location = line of the matching! invocation");
     kani::cover!(d.2 < d2.2, "two invocations, two locations");
 }
